@@ -450,12 +450,17 @@ class _ScopeVisitor(_ExpressionVisitor):
 
     def _AnnAssign(self, node):
         _AnnAssignVisitor(self).visit(node)
+        self.visit(node.annotation)
+        if node.value is not None:
+            self.visit(node.value)
 
     def _AugAssign(self, node):
-        pass
+        self.visit(node.target)
+        self.visit(node.value)
 
     def _For(self, node):
         self._update_evaluated(node.target, node.iter, ".__iter__().next()")
+        self.visit(node.iter)
         for child in node.body + node.orelse:
             self.visit(child)
 
@@ -493,6 +498,7 @@ class _ScopeVisitor(_ExpressionVisitor):
                 self._update_evaluated(
                     item.optional_vars, item.context_expr, ".__enter__()"
                 )
+            self.visit(item.context_expr)
         for child in node.body:
             self.visit(child)
 
@@ -506,7 +512,8 @@ class _ScopeVisitor(_ExpressionVisitor):
             if isinstance(node.type, ast.Tuple) and type_node.elts:
                 type_node = type_node.elts[0]
             self._update_evaluated(node.name, type_node, eval_type=True)
-
+        if node.type is not None:
+            self.visit(node.type)
         for child in node.body:
             self.visit(child)
 
@@ -608,10 +615,12 @@ class _FunctionVisitor(_ScopeVisitor):
     def _Return(self, node):
         if node.value is not None:
             self.returned_asts.append(node.value)
+            self.visit(node.value)
 
     def _Yield(self, node):
         if node.value is not None:
             self.returned_asts.append(node.value)
+            self.visit(node.value)
         self.generator = True
 
 
